@@ -9,7 +9,12 @@ Open Scope Z_scope.
 Section Items.
   Variables CM FM WM SM SQ SC : Type.
   Variable K : core CM FM WM SM SQ SC.
-  Hypothesis CT : core_total CM FM WM SM SQ SC K.
+  Variable sm_ty : SM -> abc -> Prop.
+  Variable sq_ty : SQ -> abc -> Prop.
+  Variable wrap_ok : SM -> SQ -> Prop.
+  (* guarded totality (PyGlueProofs.core_guarded): the conversions of a record only ask the core for
+     to_freq / to_weight / to_scoring with base 2 *)
+  Hypothesis CT : core_guarded CM FM WM SM SQ SC K sm_ty sq_ty wrap_ok.
 
   Notation result := (result CM WM SM SQ SC).
   Notation motif := (motif CM WM SM).
@@ -30,7 +35,7 @@ Section Items.
 
   Lemma item_outcome_np a it : it <> RPanic CM FM -> item_outcome K a it <> Panic.
   Proof.
-    destruct it; cbn [item_outcome]; intros H; [apply convert_record_np; exact CT | discriminate | congruence].
+    destruct it; cbn [item_outcome]; intros H; [eapply convert_record_np; exact CT | discriminate | congruence].
   Qed.
 
   Lemma faulty_items_np a fl items :
@@ -71,7 +76,7 @@ Section Items.
     destruct file; try discriminate; destruct (format_of f a) as [k|e|]; cbn [obind]; try discriminate.
     - destruct (load_items K a (c_read K k a bytes)) as [ms t] eqn:El. intros H. inversion H; subst r. cbn [no_item_panic].
       replace t with (snd (load_items K a (c_read K k a bytes))) by (rewrite El; reflexivity).
-      apply load_items_np; [exact CT | apply (ct_read _ _ _ _ _ _ _ CT)].
+      eapply load_items_np; [exact CT | apply (cg_read _ _ _ _ _ _ _ _ _ _ CT)].
     - destruct (c_read_faulty K desc k a) as [ctor items] eqn:Er. destruct ctor; [discriminate|].
       intros H. inversion H; subst r. cbn [no_item_panic]. apply faulty_items_np.
       intros it b Hin. apply (RF desc k a it b). rewrite Er. exact Hin.
